@@ -69,8 +69,40 @@ func (x *Exec) typeTagName(name string) string {
 
 func init() {
 	// ------------------------------------------------------------------ errors / fmt
-	reg("fmt.Errorf", "returns a fresh non-nil error (wrapping is not modelled)", func(x *Exec, fr *Frame, i *ssa.Call, fn *ssa.Function, args []Val) Val {
-		return x.freshError(fr, "errorf")
+	reg("fmt.Errorf", "returns a fresh non-nil error; a %w verb makes errors.Is(result, operand) true (one level)", func(x *Exec, fr *Frame, i *ssa.Call, fn *ssa.Function, args []Val) Val {
+		e := x.freshError(fr, "errorf")
+		st := fr.curSt
+		// locate %w in a literal format string
+		format := ""
+		for lit, name := range x.strLits {
+			if name == args[0].C[0] {
+				format = lit
+			}
+		}
+		widx := -1
+		verb := 0
+		for k := 0; k+1 < len(format); k++ {
+			if format[k] == '%' {
+				if format[k+1] == '%' {
+					k++
+					continue
+				}
+				if format[k+1] == 'w' {
+					widx = verb
+				}
+				verb++
+			}
+		}
+		if widx >= 0 && len(args) > 1 && isSlice(args[1].T) {
+			et := args[1].T.Underlying().(*types.Slice).Elem()
+			wv := x.load(st, Addr{Prefix: "E$" + typeKey(et), Ref: args[1].base(), Idx: add(args[1].off(), fmt.Sprint(widx)), T: et})
+			x.ghostSet(st, "err$wtag", e.pay(), wv.tag())
+			x.ghostSet(st, "err$wpay", e.pay(), wv.pay())
+		} else {
+			x.ghostSet(st, "err$wtag", e.pay(), "0")
+			x.ghostSet(st, "err$wpay", e.pay(), "0")
+		}
+		return e
 	})
 	reg("errors.New", "returns a fresh non-nil error", func(x *Exec, fr *Frame, i *ssa.Call, fn *ssa.Function, args []Val) Val {
 		return x.freshError(fr, "errnew")
@@ -85,6 +117,25 @@ func init() {
 		return x.freshVal("typeof", i.Type())
 	})
 
+	strRes := func(x *Exec, fr *Frame, i *ssa.Call, fn *ssa.Function, args []Val) Val {
+		return x.freshVal("str", i.Type())
+	}
+	reg("reflect.Type.Name", "returns some string; never panics on a non-nil type", strRes)
+	reg("reflect.Type.String", "returns some string; never panics on a non-nil type", strRes)
+	reg("(gorgonia.org/tensor.Dtype).String", "returns some string", strRes)
+	// ------------------------------------------------------------------ tensor.Tensor accessors
+	reg("tensor.Tensor.Shape", "returns the shape slice of the tensor header (aliases the header, not a copy)", func(x *Exec, fr *Frame, i *ssa.Call, fn *ssa.Function, args []Val) Val {
+		st := fr.curSt
+		t := tensorRef(args[0])
+		rank := x.tRank(st, t)
+		return Val{T: i.Type(), C: []string{x.tShp(st, t), "0", rank, rank}}
+	})
+	reg("tensor.Tensor.Dtype", "returns the element type of the tensor", func(x *Exec, fr *Frame, i *ssa.Call, fn *ssa.Function, args []Val) Val {
+		return Val{T: i.Type(), C: []string{x.tDtype(fr.curSt, tensorRef(args[0]))}}
+	})
+	reg("tensor.Tensor.Dims", "returns the rank of the tensor", func(x *Exec, fr *Frame, i *ssa.Call, fn *ssa.Function, args []Val) Val {
+		return Val{T: i.Type(), C: []string{x.tRank(fr.curSt, tensorRef(args[0]))}}
+	})
 	// ------------------------------------------------------------------ bytes.Reader
 	reg("bytes.NewReader", "fresh reader over b at position 0; b is aliased, not copied", func(x *Exec, fr *Frame, i *ssa.Call, fn *ssa.Function, args []Val) Val {
 		st := fr.curSt
